@@ -240,3 +240,24 @@ Definition long_range_of (bs : list bool) : long_range_broadcast :=
      lr_speed_over_ground := parse_speed_over_ground_62 (sl bs 79 6);
      lr_course_over_ground := parse_cog_511 (sl bs 85 9);
      lr_gnss_position_status := bit_at bs 94 |}.
+
+(* ---------- type 15: the three legal forms (88, 110 and 160 bits; whole bytes: 88, 112, 160) ---------- *)
+Definition int_msg_at (bs : list bool) (p : nat) : int_message :=
+  {| im_message_type := sl bs p 6; im_slot_offset := opt_nz (sl bs (6 + p) 12) |}.
+(* a second request is reported unless it is all zero *)
+Definition int_requests2 (bs : list bool) (p1 p2 : nat) : list int_message :=
+  if negb (sl bs p2 6 =? 0) || (match opt_nz (sl bs (6 + p2) 12) with Some _ => true | None => false end)
+  then [int_msg_at bs p1; int_msg_at bs p2] else [int_msg_at bs p1].
+
+Definition interrogation_head (bs : list bool) (stations : list int_station) : interrogation :=
+  {| in_message_type := sl bs 0 6; in_repeat_indicator := sl bs 6 2; in_mmsi := sl bs 8 30; in_stations := stations |}.
+(* one station, one request: mmsi 40(30) type 70(6) offset 76(12) *)
+Definition interrogation_88 (bs : list bool) : interrogation :=
+  interrogation_head bs [{| is_mmsi := sl bs 40 30; is_messages := [int_msg_at bs 70] |}].
+(* one station, two requests: ... spare 88(2) type 90(6) offset 96(12) spare 108(2) *)
+Definition interrogation_110 (bs : list bool) : interrogation :=
+  interrogation_head bs [{| is_mmsi := sl bs 40 30; is_messages := int_requests2 bs 70 90 |}].
+(* two stations: ... mmsi2 110(30) type 140(6) offset 146(12) spare 158(2) *)
+Definition interrogation_160 (bs : list bool) : interrogation :=
+  interrogation_head bs [{| is_mmsi := sl bs 40 30; is_messages := int_requests2 bs 70 90 |};
+                         {| is_mmsi := sl bs 110 30; is_messages := [int_msg_at bs 140] |}].
